@@ -103,6 +103,23 @@ func marathon(r *ev.Run, idx int) {
 			}
 			ops = append(ops, fmt.Sprintf("r%d:resubmit-confirmed=%v", round, err == nil))
 		}
+		// now and then a rival producer is about to overtake this round's block: a twin of the follower
+		// taken BEFORE the block exists (same chain, the follower's pool) will build two blocks on
+		// the current tip; see below
+		var rival *sn.Node
+		if round >= 2 && rng.Intn(5) == 0 {
+			if rival, err = f.Twin(); err != nil {
+				r.Inconclusive(err.Error())
+				return
+			}
+		}
+		dropRival := func() {
+			if rival != nil {
+				rival.Drop()
+				rival = nil
+			}
+		}
+		defer dropRival()
 		poolBefore, _ := p.State.GetUnconfirmedTx(false)
 		blk, err := p.PackBlock(sn.K(0), int64(7000000+idx*1000+round))
 		if err != nil {
@@ -200,6 +217,71 @@ func marathon(r *ev.Run, idx int) {
 			return
 		}
 		r.Count("marathon.state.equal", 1)
+		if rival != nil {
+			// ---- reorganisation: the rival's two blocks replace the producer's latest block on every node ----
+			var fork []*pb.InternalBlock
+			for i := 0; i < 2; i++ {
+				if i == 1 {
+					if x, _, _ := t.GenTx(rng, rival); x != nil {
+						if ok, _ := rival.State.VerifyTx(x); ok {
+							rival.State.DoTx(sn.CloneTx(x))
+						}
+					}
+				}
+				a, err := rival.PackBlock(sn.K(1), int64(7500000+idx*1000+round*2+i))
+				if err == nil {
+					err = rival.ConfirmForMiner(a)
+				}
+				if err != nil {
+					r.Violation("producer|rival-cannot-produce", fmt.Sprintf("round %d: a node at the previous block cannot produce from the follower's pool: %v", round, err), map[string]interface{}{"marathon": idx, "round": round, "ops": ops})
+					return
+				}
+				fork = append(fork, sn.WireBlock(a))
+			}
+			for _, nd := range []struct {
+				n   *sn.Node
+				who string
+			}{{p, "producer"}, {f, "follower"}} {
+				for _, a := range fork {
+					if err := nd.n.ProcBlock(a); err != nil {
+						r.Violation("replica|rival-block-refused|"+nd.who, fmt.Sprintf("round %d: the %s's engine refuses a rival's block (fork of 2 on the previous block): %v; log %v", round, nd.who, err, nd.n.Log.Tail(3)),
+							map[string]interface{}{"marathon": idx, "round": round, "ops": ops})
+						return
+					}
+				}
+				if string(nd.n.StateTip()) != string(fork[1].Blockid) {
+					r.Violation("replica|did-not-reorganise|"+nd.who, fmt.Sprintf("round %d: the %s did not move to the longer fork", round, nd.who), map[string]interface{}{"marathon": idx, "round": round, "ops": ops})
+					return
+				}
+			}
+			ops = append(ops, fmt.Sprintf("r%d:reorganised(own block undone, %d+%d txs)", round, len(fork[0].Transactions)-1, len(fork[1].Transactions)-1))
+			r.Count("marathon.reorganisations", 1)
+			// the chain state of all three is that of the fork; the pools differ, so compare after
+			// emptying them into one more rival block? No: compare what does not depend on the pool -
+			// every node's pool is a valid extension, so give the rival the others' pending
+			// transactions and compare pairwise through twins with the pools rolled back is C01's
+			// job; here: what the producer holds pending must be admissible on the follower, and the
+			// blocks it produces from now on must replay (the following rounds)
+			left, _ := p.State.GetUnconfirmedTx(false)
+			fpool, _ := f.State.GetUnconfirmedTx(false)
+			have := map[string]bool{}
+			for _, x := range fpool {
+				have[string(x.Txid)] = true
+			}
+			for _, x := range left {
+				if have[string(x.Txid)] {
+					continue
+				}
+				if err := f.State.DoTx(sn.CloneTx(x)); err != nil {
+					r.Violation("producer|leftover-pool-invalid|after-reorganisation", fmt.Sprintf("round %d: after the reorganisation a transaction in the producer's pool is refused by the follower at the same block: %v", round, err),
+						map[string]interface{}{"marathon": idx, "round": round, "ops": ops})
+					return
+				}
+			}
+			// transactions of the undone block are no longer confirmed
+			confirmedEarlier = nil
+			dropRival()
+		}
 		if rng.Intn(11) == 0 {
 			// the producer restarts too: its pool is reloaded from disk, its caches are cold
 			if err := p.Reopen(); err != nil {
